@@ -167,6 +167,158 @@ theorem xenc_traps_nonempty (c : Cfg) (bs : Bytes) (x : WEnc) (r : Bytes) (h : x
             | some y => simp only [h4, Option.map_some, Option.some.injEq, Prod.mk.injEq] at h; obtain ⟨rfl, _⟩ := h; exact hne
           · cases h
 
+/-- a counted list read with the non-empty flag is not empty -/
+theorem counted_nonempty {α : Type} (d : Dec α) (bs : Bytes) (l : List α) (r : Bytes)
+    (h : counted d true bs = some (l, r)) : l ≠ [] := by
+  unfold counted at h
+  cases h3 : leb bs with
+  | none => simp [h3] at h
+  | some w =>
+    obtain ⟨n, r3⟩ := w
+    simp only [h3, Bool.true_and] at h
+    split at h
+    · cases h
+    · rename_i hn
+      cases n with
+      | zero => simp at hn
+      | succ m =>
+        simp only [many] at h
+        cases h4 : d r3 with
+        | none => simp [h4] at h
+        | some z =>
+          obtain ⟨a, r4⟩ := z
+          simp only [h4] at h
+          cases h5 : many m d r4 with
+          | none => simp [h5] at h
+          | some y =>
+            simp only [h5, Option.some.injEq, Prod.mk.injEq] at h
+            obtain ⟨rfl, _⟩ := h
+            simp
+
+/-- a decoded user key carries at least one marker: `UserSecretKey::tracing_level() = id.len() - 1`
+cannot underflow, and `decaps` zips a non-empty identifier with the traps -/
+theorem usk_id_nonempty (c : Cfg) (bs : Bytes) (u : WUsk) (r : Bytes) (h : usk c bs = some (u, r)) : u.id ≠ [] := by
+  unfold usk at h
+  cases h1 : userId c bs with
+  | none => simp [h1] at h
+  | some p =>
+    obtain ⟨id, r1⟩ := p
+    have hne := counted_nonempty (sk c) bs id r1 h1
+    simp only [h1] at h
+    cases h2 : counted (pk c) false r1 with
+    | none => simp [h2] at h
+    | some q =>
+      obtain ⟨ps, r2⟩ := q
+      simp only [h2] at h
+      cases h3 : counted (uskItem c) false r2 with
+      | none => simp [h3] at h
+      | some w =>
+        obtain ⟨secrets, r3⟩ := w
+        simp only [h3] at h
+        split at h
+        · simp only [Option.some.injEq, Prod.mk.injEq] at h; obtain ⟨rfl, _⟩ := h; exact hne
+        · cases h4 : takeN SIG r3 with
+          | none => simp [h4] at h
+          | some y => simp only [h4, Option.map_some, Option.some.injEq, Prod.mk.injEq] at h; obtain ⟨rfl, _⟩ := h; exact hne
+
+/-- every chain of a decoded user key is non-empty (the reader drops empty chains): the revision
+iterator and `refresh_coordinate_keys` never see an empty chain -/
+theorem usk_chains_nonempty (c : Cfg) (bs : Bytes) (u : WUsk) (r : Bytes) (h : usk c bs = some (u, r)) :
+    ∀ p ∈ u.secrets, p.2 ≠ [] := by
+  unfold usk at h
+  cases h1 : userId c bs with
+  | none => simp [h1] at h
+  | some p =>
+    obtain ⟨id, r1⟩ := p
+    simp only [h1] at h
+    cases h2 : counted (pk c) false r1 with
+    | none => simp [h2] at h
+    | some q =>
+      obtain ⟨ps, r2⟩ := q
+      simp only [h2] at h
+      cases h3 : counted (uskItem c) false r2 with
+      | none => simp [h3] at h
+      | some w =>
+        obtain ⟨secrets, r3⟩ := w
+        simp only [h3] at h
+        have key : ∀ p ∈ secrets.filter (fun p => !p.2.isEmpty), p.2 ≠ [] := by
+          intro p hp
+          have := (List.mem_filter.1 hp).2
+          intro he; simp [he] at this
+        split at h
+        · simp only [Option.some.injEq, Prod.mk.injEq] at h; obtain ⟨rfl, _⟩ := h; exact key
+        · cases h4 : takeN SIG r3 with
+          | none => simp [h4] at h
+          | some y => simp only [h4, Option.map_some, Option.some.injEq, Prod.mk.injEq] at h; obtain ⟨rfl, _⟩ := h; exact key
+
+/-- a decoded public key has at least one tracing point (`MasterPublicKey::tracing_level`) -/
+theorem mpk_tpk_nonempty (c : Cfg) (bs : Bytes) (m : WMpk) (r : Bytes) (h : mpk c bs = some (m, r)) : m.tpk ≠ [] := by
+  unfold mpk at h
+  cases h1 : counted (pk c) true bs with
+  | none => simp [h1] at h
+  | some p =>
+    obtain ⟨tpk, r1⟩ := p
+    have hne := counted_nonempty (pk c) bs tpk r1 h1
+    simp only [h1] at h
+    cases h2 : counted (mpkItem c) false r1 with
+    | none => simp [h2] at h
+    | some q =>
+      obtain ⟨keys, r2⟩ := q
+      simp only [h2] at h
+      cases h3 : struct_ r2 with
+      | none => simp [h3] at h
+      | some w => simp only [h3, Option.some.injEq, Prod.mk.injEq] at h; obtain ⟨rfl, _⟩ := h; exact hne
+
+/-- a decoded master key has at least one tracer, and every registered identifier at least one
+marker (`TracingSecretKey::tracing_level`, `UserId::tracing_level`; `full_decaps` divides by the
+first tracer) -/
+theorem msk_tracers_nonempty (c : Cfg) (bs : Bytes) (m : WMsk) (r : Bytes) (h : msk c bs = some (m, r)) :
+    m.tracers ≠ [] := by
+  unfold msk at h
+  cases h0 : sk c bs with
+  | none => simp [h0] at h
+  | some p0 =>
+    obtain ⟨s, r0⟩ := p0
+    simp only [h0] at h
+    cases h1 : counted (tracer c) true r0 with
+    | none => simp [h1] at h
+    | some p =>
+      obtain ⟨tr, r1⟩ := p
+      have hne := counted_nonempty (tracer c) r0 tr r1 h1
+      simp only [h1] at h
+      cases h2 : counted (userId c) false r1 with
+      | none => simp [h2] at h
+      | some q =>
+        obtain ⟨users, r2⟩ := q
+        simp only [h2] at h
+        cases h3 : counted (mskItem c) false r2 with
+        | none => simp [h3] at h
+        | some w =>
+          obtain ⟨secrets, r3⟩ := w
+          simp only [h3] at h
+          split at h
+          · cases h
+          · rename_i sig r4 _
+            cases h5 : struct_ r4 with
+            | none => simp [h5] at h
+            | some y => simp only [h5, Option.some.injEq, Prod.mk.injEq] at h; obtain ⟨rfl, _⟩ := h; exact hne
+
+/-- a decoded header's encapsulation has at least one trap (header decryption calls `decaps`) -/
+theorem header_traps_nonempty (c : Cfg) (bs : Bytes) (hd : WHeader) (r : Bytes) (h : header c bs = some (hd, r)) :
+    hd.enc.c ≠ [] := by
+  unfold header at h
+  cases h1 : xenc c bs with
+  | none => simp [h1] at h
+  | some p =>
+    obtain ⟨e, r1⟩ := p
+    simp only [h1] at h
+    cases h2 : vec r1 with
+    | none => simp [h2] at h
+    | some q =>
+      simp only [h2, Option.map_some, Option.some.injEq, Prod.mk.injEq] at h
+      obtain ⟨rfl, _⟩ := h
+      exact xenc_traps_nonempty c bs e r1 h1
+
 /-- the (repaired) revision iterator terminates: it yields at most as many revisions as there are
 secrets in the key, and none at all for a key without any chain (it does not spin) -/
 theorem revisions_bounded (chains : RevVec) : (revisions chains).length ≤ revTotal chains := by
